@@ -64,12 +64,24 @@ Definition load_enh (dr dw : pat) (m : list (str * cred)) (e : enh_user) : list 
   let w := match c_write (eu_acl e) with Some p => PPrefix p | None => dw end in
   put (eu_name e) (mkCred (eu_hash e) r w) m.
 
-Definition build (c : auth_cfg) : list (str * cred) :=
+Definition build_users (c : auth_cfg) : list (str * cred) :=
   let dr := default_pat (c_read (default_acl c)) in
   let dw := default_pat (c_write (default_acl c)) in
   let m0 := fold_left (fun m up => put (fst up) (mkCred (snd up) dr dw) m) (users c) [] in
   let m1 := fold_left (load_enh dr dw) (enh_users c) m0 in
   fold_left (load_enh dr dw) (file_users c) m1.
+
+(* cmd/volantmq/main.go configureSimpleAuth: a configuration without any user gets the user "guest" with the password
+   "guest" (the hash below is the hexadecimal SHA-256 of "guest") and the default rules *)
+Definition guest_name : str := [103; 117; 101; 115; 116].
+Definition guest_hash : str :=
+  [56; 52; 57; 56; 51; 99; 54; 48; 102; 55; 100; 97; 97; 100; 99; 49; 99; 98; 56; 54; 57; 56; 54; 50; 49; 102; 56; 48; 50; 99; 48; 100;
+   57; 102; 57; 97; 51; 99; 51; 99; 50; 57; 53; 99; 56; 49; 48; 55; 52; 56; 102; 98; 48; 52; 56; 49; 49; 53; 99; 49; 56; 54; 101; 99].
+Definition build (c : auth_cfg) : list (str * cred) :=
+  match build_users c with
+  | [] => [(guest_name, mkCred guest_hash (default_pat (c_read (default_acl c))) (default_pat (c_write (default_acl c))))]
+  | m => m
+  end.
 
 Definition acl (m : list (str * cred)) (user topic : str) (write : bool) : verdict :=
   match lookup user m with
